@@ -1,0 +1,39 @@
+//go:build verif
+
+package rtpconn
+
+import (
+	"encoding/json"
+
+	"github.com/gorilla/websocket"
+)
+
+// VerifReadFrames runs the real clientReader on a websocket connection until
+// it ends and returns the JSON form of every message the reader delivered to
+// the client loop, in order.
+func VerifReadFrames(conn *websocket.Conn) [][]byte {
+	read := make(chan interface{}, 1)
+	done := make(chan struct{})
+	go clientReader(conn, read, done)
+	var out [][]byte
+	for m := range read {
+		if cm, ok := m.(clientMessage); ok {
+			b, err := json.Marshal(cm)
+			if err != nil {
+				b = []byte("null")
+			}
+			out = append(out, b)
+		}
+	}
+	close(done)
+	return out
+}
+
+// VerifDecodeFrame decodes one frame on its own, as a fresh clientMessage.
+func VerifDecodeFrame(frame []byte) ([]byte, error) {
+	var m clientMessage
+	if err := json.Unmarshal(frame, &m); err != nil {
+		return nil, err
+	}
+	return json.Marshal(m)
+}
